@@ -43,6 +43,8 @@ def plan(tier, seed):
     # wide groups: 10-16 nodes of one type (size thresholds of the index-based / matrix edge forms)
     n_w = 24 if tier == 'quick' else 500
     cases += [{'family': 'wide', 'cseed': rnd.randrange(1 << 30)} for _ in range(n_w)]
+    # wide groups wired one-to-one except for one or two redirected edges (a convergent target, not more edges than targets)
+    cases += [{'family': 'wide', 'cseed': rnd.randrange(1 << 30), 'near_perm': True} for _ in range(12 if tier == 'quick' else 250)]
     cases += [{'family': 'shared_operator', 'cseed': rnd.randrange(1 << 30)} for _ in range(16 if tier == 'quick' else 300)]
     # gamma-kernel delays: the set of (order, rate) chains must not depend on vectorization
     cases += [{'family': 'gamma_kernels', 'cseed': rnd.randrange(1 << 30)} for _ in range(24 if tier == 'quick' else 400)]
@@ -105,7 +107,7 @@ def vec_risks(spec):
     return risk
 
 
-def add_edges(spec, rnd, uniform):
+def add_edges(spec, rnd, uniform, near_perm=False):
     """Edge bundles between merged groups.  uniform: every node of a target group receives at least one edge into a
     driven input variable (so no merged input is partially driven)."""
     node_list, _, group, node_group = groups_of(spec)
@@ -128,11 +130,19 @@ def add_edges(spec, rnd, uniform):
         return spec
     n_b = rnd.choice([1, 1, 2, 3, 4])
     used_t = set()
-    for _ in range(n_b):
+    for bi in range(n_b):
         sg, so, sv = rnd.choice(srcs)
         tg, to, tv = rnd.choice(tgts)
+        if near_perm and bi == 0:
+            # first bundle: from the widest group onto itself, one-to-one except for redirected edges (see below)
+            wg = max(group, key=lambda g_: len(group[g_]))
+            ws, wt = [x for x in srcs if x[0] == wg], [x for x in tgts if x[0] == wg]
+            if ws and wt:
+                (sg, so, sv), (tg, to, tv) = rnd.choice(ws), rnd.choice(wt)
         S, T = group[sg], group[tg]
         pattern = rnd.choice(['all', 'one_each', 'dense', 'sparse', 'k_each', 'perm', 'perm'])
+        if near_perm and bi == 0:
+            pattern = 'perm'
         if len(T) >= 10 and rnd.random() < 0.5:
             pattern = 'perm'      # wide groups: one-to-one wiring takes the index-based edge form (density <= 0.1)
         pairs = []
@@ -151,7 +161,7 @@ def add_edges(spec, rnd, uniform):
                 mid = pairs[1:-1]
                 rnd.shuffle(mid)
                 pairs = [pairs[0]] + mid + [pairs[-1]]
-            if len(pairs) >= 4 and rnd.random() < (0.6 if len(T) >= 10 else 0.35):
+            if len(pairs) >= 4 and (rnd.random() < (0.6 if len(T) >= 10 else 0.35) or (near_perm and bi == 0)):
                 # nearly one-to-one: one or two edges are redirected onto a target that already has an edge (a convergent target among
                 # one-to-one wired ones; the group still has no more edges than targets)
                 for _ in range(rnd.randint(1, 2)):
@@ -173,7 +183,7 @@ def add_edges(spec, rnd, uniform):
                 if not got and (uniform or rnd.random() < 0.5):
                     got = [(rnd.choice(S), b)]
                 pairs += got
-        if not uniform and rnd.random() < 0.5 and len(pairs) > 1 and not (pattern == 'perm' and len(T) >= 10):
+        if not uniform and rnd.random() < 0.5 and len(pairs) > 1 and not (pattern == 'perm' and len(T) >= 10) and not (near_perm and bi == 0):
             pairs = rnd.sample(pairs, rnd.randint(1, len(pairs)))
         # weights of one bundle: mixed magnitudes, or all of one (very small) magnitude as in SI-unit models
         wkind = rnd.choice([None, None, None, None, None, 'nano', 'tiny']) if len(T) < 10 else rnd.choice([None, None, 'nano', 'tiny'])
@@ -250,7 +260,7 @@ def make_spec(case, opened):
             spec = gen.individualize(base, rnd, params=rnd.choice(['different', 'different', 'equal']))
             if not want and rnd.random() < 0.2 and not case.get('no_int_decl'):
                 int_declared_constants(spec, rnd)
-            spec = add_edges(spec, rnd, uniform)
+            spec = add_edges(spec, rnd, uniform, near_perm=bool(case.get('near_perm')))
             if et_mode:
                 spec = gen.add_edge_templates(spec, rnd, frac=rnd.choice([0.3, 0.6, 1.0]),
                                               mixed_overrides=want == 'mixed_template_overrides',
@@ -417,7 +427,7 @@ def run_case(case, ctx):
 # MANIFEST-BEGIN
 MANIFEST = {
     'technique': 'differential + reference-model monitor: the same generated circuit compiled with vectorize=True/False, both vector fields and Euler trajectories compared per frontend variable with the independent reference; slot-allocation (M-vec) and edge-conservation (M-edge) hooks inside the compile',
-    'level_text': 'Every generated circuit (several structurally identical nodes per type, unique per-node initial values, equal or different constants, sparse-to-dense edge patterns around the matrix_sparseness threshold, self-connections, fan-in from several types) is compiled both ways; derivatives at random states with perturbed parameters and 12-step Euler trajectories of every state variable are compared with the reference semantics (1e-8 / 1e-7), positions found by value fingerprinting; cache_func slot ranges must be disjoint and contiguous and all connections must reach the edge-equation generator exactly once. Further families: edges through EdgeTemplates whose instances share one vectorized edge node across several projection groups, and wide groups (11-16 nodes of one type, around the size thresholds of the index-based and matrix edge forms). An edge-weight conservation monitor requires every declared weight (any magnitude, e.g. 1e-9) among the returned in_edge weight arguments; bundles use mixed or uniformly tiny weights; two-input edge templates map their second input to a variable of the target node by explicit path. Edges of weight exactly 1.0 are sometimes declared without a weight attribute; wide groups use interior-scrambled one-to-one wiring. Gamma-kernel families: a structural monitor on the emitted chain equations requires one chain per (source, kernel) actually declared, so that a merged or dropped chain is seen even where an open finding masks the values. Constants may be declared with an integer default and receive their only fractional value on the last node of a group; a family uses node types that share one operator template. Held on observed circuits only.',
+    'level_text': 'Every generated circuit (several structurally identical nodes per type, unique per-node initial values, equal or different constants, sparse-to-dense edge patterns around the matrix_sparseness threshold, self-connections, fan-in from several types) is compiled both ways; derivatives at random states with perturbed parameters and 12-step Euler trajectories of every state variable are compared with the reference semantics (1e-8 / 1e-7), positions found by value fingerprinting; cache_func slot ranges must be disjoint and contiguous and all connections must reach the edge-equation generator exactly once. Further families: edges through EdgeTemplates whose instances share one vectorized edge node across several projection groups, and wide groups (11-16 nodes of one type, around the size thresholds of the index-based and matrix edge forms). An edge-weight conservation monitor requires every declared weight (any magnitude, e.g. 1e-9) among the returned in_edge weight arguments; bundles use mixed or uniformly tiny weights; two-input edge templates map their second input to a variable of the target node by explicit path. Edges of weight exactly 1.0 are sometimes declared without a weight attribute; wide groups use interior-scrambled one-to-one wiring. Gamma-kernel families: a structural monitor on the emitted chain equations requires one chain per (source, kernel) actually declared, so that a merged or dropped chain is seen even where an open finding masks the values. Constants may be declared with an integer default and receive their only fractional value on the last node of a group; a family uses node types that share one operator template. Wide groups are also wired nearly one-to-one (one or two edges redirected onto a target that already has one); unit gains are sometimes exactly -1.0. Held on observed circuits only.',
     'level_note': 'Trusted: vp/ref.py, value fingerprinting (all initial values unique per model). Risk features of open findings are excluded from the main sweep and run as probe families.',
 }
 # MANIFEST-END
